@@ -27,6 +27,7 @@ FAMILIES = {
     "zeroreflect": {"spec": {"imports": "Base AwkCorr", "type": "acase", "fn": "acheck"}, "methods_crosscheck": True},
     "sched": {"model": {"imports": "Base StackImpl StackSpecCorr StackCorr Conc ConcCorr", "type": "mccase", "fn": "mc_check"},
               "spec": {"imports": "Base StackSpec StackSpecCorr ConcSpecCorr", "prelude": "Import SpecSyntax. Import ConcSyntax.", "type": "sccase", "fn": "sc_check"}},
+    "closures": {"spec": {"imports": "Base Policy PolicyCorr", "type": "pcase", "fn": "pcheck"}},
     "transfer": {"model": {"imports": "Base StackImpl StackSpecCorr TransferCorr TransferCorrM", "type": "tcase", "fn": "tcheck_model"},
                  "spec": {"imports": "Base StackSpec StackSpecCorr TransferCorr", "type": "tcase", "fn": "tcheck_spec"}},
 }
@@ -60,13 +61,13 @@ PROPS = {
             "technique": "Coq linearizability proof (ghost log invariant, induction over schedules) over the regenerated list model + exhaustive scheduler-controlled differential check",
             "race": {"mode": "mutators", "rounds": [40, 1500], "workers": 8},
             "assumptions": ["sync.Mutex is an ideal exclusive lock; critical sections are atomic actions", "the Go memory model (torn reads, reordering) and goroutine scheduling are outside the model: partial", "the race-freedom sentence of the property is refuted at footprint level (known finding C10/unlocked-wrapper-reads), not proved"]},
-    "C13": {"props_file": "Props/C13.v", "families": ["nesting"], "design_ref": "DESIGN.md §8 C13",
+    "C13": {"props_file": "Props/C13.v", "families": ["nesting", "cond"], "design_ref": "DESIGN.md §8 C13",
             "level_text": "Theorems c13_*: with the option on Push stores exactly the non-Stack values (in order, up to capacity); switching never touches elements; CanNest = option off = a pushed Stack would be stored; IsNesting = some element is a Stack/alias; in every reachable state.",
             "technique": "Coq proof over the regenerated list model + differential correspondence check (native/alias/pointer-to-alias values)"},
     "C15": {"props_file": "Props/C15.v", "families": ["transfer"], "design_ref": "DESIGN.md §8 C15",
             "level_text": "Theorems c15_*: for all source/destination contents, capacities, destination options and push policies, the model of Stack.Transfer (pre-check and success expression regenerated from /repo) agrees with the specification: true is returned only if the destination ends as its previous elements followed by every source element in order; too little free capacity, a read-only or non-convertible destination give false and no change; the source is not an output of the operation at all.",
             "technique": "Coq refinement proof over two raw-slot states + exhaustive/random differential correspondence check"},
-    "C14": {"props_file": "Props/C14.v", "families": ["policy"], "design_ref": "DESIGN.md §8 C14",
+    "C14": {"props_file": "Props/C14.v", "families": ["policy", "closures"], "design_ref": "DESIGN.md §8 C14",
             "level_text": "Theorem c14_push_policy holds for EVERY policy function: consulted values are a prefix of the batch, each once, in order; approved ones are exactly what is appended; the first rejection stops the batch, is recorded in Err and is not stored; capacity respected.",
             "technique": "Coq proof parametric in the policy closure + differential correspondence check with logged table-driven policies"},
 }
